@@ -97,13 +97,13 @@ def _partition(draw, route, lab_idx, all_idx, max_files=4):
     if route in ('columns', 'rows'):
         # one file: label columns (every cell labelled) or a tree that lists row numbers (unnamed rows allowed)
         src = lab_idx if route == 'columns' else all_idx
-        rows = list(draw(st.permutations(src))) if draw(st.booleans()) else list(src)
+        rows = list(draw(gen.shuffled(src))) if draw(st.booleans()) else list(src)
         files = [{'enc': draw(st.sampled_from(['csr', 'csc', 'dense'])), 'rows': rows}]
     else:
         n = len(all_idx)
         n_files = draw(st.integers(1, min(max_files, n)))
         mode = draw(st.sampled_from(['blocks', 'scatter', 'scatter']))
-        order = list(draw(st.permutations(all_idx))) if mode == 'scatter' or draw(st.booleans()) else list(all_idx)
+        order = list(draw(gen.shuffled(all_idx))) if mode == 'scatter' or draw(st.booleans()) else list(all_idx)
         if n_files == 1:
             groups = [order]
         else:
@@ -113,7 +113,8 @@ def _partition(draw, route, lab_idx, all_idx, max_files=4):
         files = [{'enc': draw(st.sampled_from(['csr', 'csc', 'dense'])), 'rows': grp} for grp in groups if grp]
     n_rows = sum(len(f['rows']) for f in files)
     return {'route': route, 'files': files,
-            'rows_at_a_time': draw(st.integers(1, n_rows + 2)),
+            'rows_at_a_time': (draw(st.integers(1, n_rows + 2)) if n_rows <= 60
+                               else draw(st.sampled_from([17, 40, 64, 100, 128, 255, 256, n_rows, n_rows + 2]))),
             'n_processors': draw(st.integers(1, 4)),
             'tmp_dir': draw(st.integers(0, 3)) > 0,
             'copy_data_over': route == 'tree' and draw(st.integers(0, 3)) == 3,
@@ -131,9 +132,14 @@ def cases(draw, max_cells=22, max_genes=7, max_leaves=7):
     if draw(st.booleans()):
         genes = list(draw(st.permutations(genes)))
     # ---- labels
-    shape = draw(st.sampled_from(['any', 'any', 'one_big', 'singletons']))
+    shape = draw(st.sampled_from(['any', 'any', 'any', 'any', 'one_big', 'one_big', 'singletons', 'singletons', 'huge']))
     n_extra = 0 if shape == 'singletons' else draw(st.integers(0, max(0, max_cells - nl)))
-    if shape == 'one_big':
+    if shape == 'huge':
+        # one cluster with more cells than a one-byte counter holds (the others small), spread over files / workers
+        big = draw(st.integers(0, nl - 1))
+        n_extra = draw(st.sampled_from([254, 255, 256, 257, 300]))
+        extra = [big] * n_extra + [draw(st.integers(0, nl - 1)) for _ in range(draw(st.integers(0, 6)))]
+    elif shape == 'one_big':
         big = draw(st.integers(0, nl - 1))
         extra = [big if draw(st.integers(0, 3)) else draw(st.integers(0, nl - 1)) for _ in range(n_extra)]
     else:
@@ -145,7 +151,7 @@ def cases(draw, max_cells=22, max_genes=7, max_leaves=7):
         # a leaf of the taxonomy without any cell (its cells stay in the files, unnamed)
         empty = draw(st.integers(0, nl - 1))
         labels = [-1 if lb == empty else lb for lb in labels]
-    labels = list(draw(st.permutations(labels)))
+    labels = list(draw(gen.shuffled(labels)))
     n = len(labels)
     id_scheme = draw(st.sampled_from(['c', 'c', 'num', 'uni']))
     if id_scheme == 'c':
@@ -160,10 +166,11 @@ def cases(draw, max_cells=22, max_genes=7, max_leaves=7):
     kind = draw(st.sampled_from(['raw', 'raw', 'log2']))
     if kind == 'raw':
         dtype = draw(st.sampled_from(RAW_DTYPES))
-        rows = [draw(st.sampled_from(RAW_ROW_KINDS)) for _ in range(n)]
+        rows = [draw(st.sampled_from(RAW_ROW_KINDS)) for _ in range(min(n, 24))]
     else:
         dtype = draw(st.sampled_from(LOG_DTYPES))
-        rows = [draw(st.sampled_from(LOG_ROW_KINDS)) for _ in range(n)]
+        rows = [draw(st.sampled_from(LOG_ROW_KINDS)) for _ in range(min(n, 24))]
+    rows = [rows[i % len(rows)] for i in range(n)]
     x = {'kind': kind, 'dtype': dtype, 'seed': draw(st.integers(0, 2 ** 31 - 1)),
          'max_count': draw(st.sampled_from([3, 40, 40, 1000])),
          'density': draw(st.sampled_from([0.3, 0.7, 0.7, 1.0])), 'rows': rows}
